@@ -1,6 +1,8 @@
 import EdpVerif.Generated.MiscC09
 import EdpVerif.Generated.MiscState
 import EdpVerif.Lemmas.Recv
+import EdpVerif.Lemmas.RecvBody
+import EdpVerif.Lemmas.RecvExits
 import EdpVerif.Props.C09
 import EdpVerif.Generated.Control
 /-
@@ -220,6 +222,34 @@ theorem C06_not_fragmented_delivered :
   simp only [atTime, outs, e, this, List.map_cons, List.map_nil, Option.map_some]
   decide
 
+/-- DEFECT (known finding KF-C06-fragment-header-applied-late): the cache entries a FRAGMENT HEADER announces take effect
+only when the LAST fragment completes the sequence (the header is parsed by `decode_complete_fragment`), not when the first
+fragment arrives. The peer announces them with the first fragment and may refer to them in any later frame, also in a
+message that overtakes the rest of the sequence. Witness: `linkNew` (creates slot (3, 7)) and `linkOld` (refers to it without
+text) are a conforming sender's history and are both delivered when sent whole; with `linkNew` in two fragments and `linkOld`
+between them, `linkOld` is refused. Guarded form: `C06_fragmented_partial` (nothing but ticks between the fragments). -/
+theorem C06_not_fragment_header_entries_known_at_once :
+    ConformingSeq [] [linkNew.c14, linkOld.c14] ∧
+      linkNew.TermsConform Ext.none Gen.controlTable ∧ linkOld.TermsConform Ext.none Gen.controlTable ∧
+      recvAll Ext.none Gen.controlTable St.init [(0, linkNew.frame), (0, linkOld.frame)] = [linkNew.m.expected, linkNew.m.expected] ∧
+      (outs Ext.none Gen.controlTable St.init
+        [(0, fragFirst 9 2 linkNew.header linkNew.m.wire.terms), (0, linkOld.frame)]).map (Option.map Res.text) =
+        [none, some "err"] := by
+  have hc := C06_witness_link_conforms Ext.none
+  have hseq : ConformingSeq [] [linkNew.c14, linkOld.c14] := by
+    simp [ConformingSeq, Conforming, CSent.c14, linkNew, linkOld, upd, sendSlots, List.lookup, validUtf8, utf8Decode]
+  refine ⟨hseq, hc.1, hc.2, ?_, by decide⟩
+  refine (C06_header_exactly_once_in_order Ext.none Gen.controlTable St.init [] [(linkNew, .whole), (linkOld, .whole)]
+    [(0, linkNew.frame), (0, linkOld.frame)] (fun _ => rfl) (by simpa using hseq) ?_ ?_ (by unfold WithTicks; decide)).1
+  · intro p hp
+    simp at hp
+    rcases hp with rfl | rfl
+    · exact hc.1
+    · exact hc.2
+  · intro p hp seq hq
+    simp at hp
+    rcases hp with rfl | rfl <;> simp at hq
+
 /-! ### the read-half copy in header mode -/
 
 /-- `receive_message_from_read_half` has no atom cache and no assembler: every frame that is not a tick and does not start
@@ -335,6 +365,75 @@ theorem C06_header_junk_isolated (x : Ext) (tbl : Control.Table) (s : St) (sndr 
   cases hj : (recv x tbl junk.1 (after x tbl s tfs₁) junk.2).2 with
   | none => simp [h2]
   | some r => simp [h2]
+
+/-- AN ACCEPTED HEADER IS APPLIED WHETHER OR NOT THE BODY DECODES. For EVERY `131, 68` frame (and every frame that is the only
+fragment of a sequence), in every state, at every clock reading: the connection's atom cache after the frame is what the
+header parser alone leaves — the bytes after the header (valid terms, truncated terms, a payload nested too deep, bytes left
+over, a control tuple that is no control message) have no say in it. A peer that has sent a well-formed header treats every
+entry it announced as known; this is what keeps its later frames readable when the body of this one is refused. -/
+theorem C06_header_applied_whatever_the_body (x : Ext) (tbl : Control.Table) (now : Nat) (s : St) (r : Bytes) :
+    (recv x tbl now s (131 :: 68 :: r)).1.cache = (parseHeader s.cache r).1 ∧
+    (∀ r', (parseHeader s.cache r).1 = (parseHeader s.cache r').1 →
+      (recv x tbl now s (131 :: 68 :: r)).1.cache = (recv x tbl now s (131 :: 68 :: r')).1.cache) ∧
+    (∀ seq (n : UInt8) rest, r = n :: rest → seq < 2 ^ 64 → Frag.lookup seq s.asm.pending = none →
+      (recv x tbl now s (fragFirst seq 1 [n] rest)).1.cache = (parseHeader s.cache r).1) := by
+  have h : ∀ r, (recv x tbl now s (131 :: 68 :: r)).1.cache = (parseHeader s.cache r).1 := by
+    intro r
+    rw [recv_header_frame, recvHeader]
+    exact decodeWithAtomCache_fst x s.cache r
+  refine ⟨h r, fun r' e => by rw [h r, h r', e], ?_⟩
+  intro seq n rest hr hs h0
+  subst hr
+  rw [C06_single_fragment_as_unfragmented x tbl now s seq n rest hs h0]
+  exact h _
+
+/-- the header of `linkNew` followed by NOTHING (the frame ends where the control tuple should start): slot (3, 7) is
+written all the same -/
+example (x : Ext) (now : Nat) :
+    (recv x Gen.controlTable now St.init (131 :: 68 :: sendHeader false linkNew.es)).1.cache.slots = [((3, 7), [97, 64, 104])] := by
+  rw [(C06_header_applied_whatever_the_body x Gen.controlTable now St.init _).1]
+  decide
+
+/-- A REFUSED BODY COSTS ONE ERROR AND NOTHING ELSE (junk isolation for frames with a VALID header, the cache carried
+along). Any history of a conforming sender with an atom cache (as in `C06_header_exactly_once_in_order`: new entries,
+references to existing entries, overwrites; whole frames and single fragments; ticks anywhere; any clock readings), in
+which ANY NUMBER of messages reach the receiver with their header intact and ARBITRARY BYTES in place of their terms
+(`Item.bad`; the sender knows nothing of it and goes on referring to the entries those headers announced): every message
+that arrives as meant is delivered exactly as meant — those after a refused frame included, with NO guard on which slots
+they read —, every other frame makes exactly one call return (an error whenever its bytes cannot be read as terms under any
+table, `BodyRefused`), and after every frame — the refused ones included — the connection's cache agrees with the sender's. -/
+theorem C06_refused_bodies_isolated (x : Ext) (tbl : Control.Table) (s : St) (sndr : Slots) (items : List Item)
+    (tfs : List TFrame) (hagree : SlotsAgree s.cache sndr) (hconf : ConformingSeq sndr (items.map Item.c14))
+    (hterms : ∀ h fr, Item.good h fr ∈ items → h.TermsConform x tbl) (hseq : ItemsFree s.asm items)
+    (hfs : WithTicks (bodies tfs) (items.map Item.frame)) :
+    Matches x items ((outs x tbl s tfs).filterMap id) ∧
+    SlotsAgree (after x tbl s tfs).cache (slotsAfter sndr (items.map Item.c14)) :=
+  outs_items x tbl tfs items s sndr hagree hconf hterms hseq hfs
+
+/-- non-vacuity: the frame that creates slot (3, 7) ends right after its header (an error); the next two messages refer to
+the slot without text — one of them as a single fragment, a tick in between — and are delivered -/
+example (x : Ext) :
+    (outs x Gen.controlTable St.init [(0, 131 :: 68 :: sendHeader false linkNew.es), (1, linkOld.single 9), (2, []), (3, linkOld.frame)]).filterMap id =
+      [.err, linkNew.m.expected, linkNew.m.expected] := by
+  have hc := C06_witness_link_conforms x
+  have h := (C06_refused_bodies_isolated x Gen.controlTable St.init []
+    [.bad false linkNew.es [] .whole, .good linkOld (.single 9), .good linkOld .whole]
+    [(0, 131 :: 68 :: sendHeader false linkNew.es), (1, linkOld.single 9), (2, []), (3, linkOld.frame)] (fun _ => rfl) ?_ ?_ ?_
+    (by unfold WithTicks; decide)).1
+  · generalize (outs x Gen.controlTable St.init _).filterMap id = l at h
+    rcases l with _ | ⟨r0, _ | ⟨r1, _ | ⟨r2, _ | ⟨r3, l⟩⟩⟩⟩ <;> simp only [Matches, and_false] at h
+    obtain ⟨h0, h1, h2, _⟩ := h
+    rw [h0 (bodyRefused_nil x), h1, h2]
+    rfl
+  · simp [ConformingSeq, Conforming, Item.c14, CSent.c14, linkNew, linkOld, upd, sendSlots, List.lookup, validUtf8, utf8Decode]
+  · intro h fr hm
+    simp at hm
+    rcases hm with ⟨rfl, _⟩ | ⟨rfl, _⟩ <;> exact hc.2
+  · intro it hit seq hq
+    simp at hit
+    rcases hit with rfl | rfl | rfl <;> simp [Item.framing] at hq
+    subst hq
+    exact ⟨by omega, rfl⟩
 
 /-- a junk frame that writes no cache slot — every frame that is not `131, 68 | 69 | 70` (random bytes, wrong markers,
 unmarked terms, pass-through frames), and every other frame that fails before its header has written anything — costs
@@ -473,5 +572,59 @@ theorem C06_state_is_the_sources_state :
     ∧ Edp.Gen.STRUCT_MessageFramer = ["mode:FrameMode"] ∧ Edp.Gen.STRUCT_MessageDeframer = ["mode:FrameMode"]
     ∧ Edp.Gen.STRUCT_AtomCache = ["atoms:HashMap<u8,Atom>", "slots:HashMap<(u8,u8),Atom>"]
     ∧ Edp.Gen.PROCESS_WIDE_STATE = [] := by decide
+
+/-! ### what a frame leaves behind, read off the source -/
+
+/-- THE EXITS OF THE RECEIVE FUNCTIONS ARE THE SOURCE'S (regenerated on every run by `gen_c06`; a new `?`, a new `return Err`,
+a statement moved across one of them, a new use of `self` in the read-half copy changes the table and breaks this
+obligation). `receive_message`: twenty places where an iteration ends, in this order; an error can leave only with nothing
+changed (the gate, the read itself), with the frame consumed and `cleanup_expired` run and NOTHING else (every pass-through
+error, every fragment-header/continuation decoding error, fragment id 0, an unmarked frame), or — the two places that hand
+the atom cache out as `&mut` before they can fail — additionally with the cache written (`decode_with_atom_cache` and
+`from_term` after it in the `131, 68` branch) and, for a completed fragment sequence, with the sequence taken out of the
+assembler. `receive_message_from_read_half` changes no connection state at any exit and parses the control message BEFORE the
+payload (the other order than `receive_message`; both orders give one error per frame). `receive_raw` is the gate and the
+bare read. The wire tags the dispatch compares with are the model's. -/
+theorem C06_exits_are_the_sources :
+    Edp.Gen.RECV_EXITS.map (·.1) =
+      ["gate:ErrInvalidState", "head:read_message", "head:continue",
+       "frag_header:decode_fragment_header", "frag_header:ErrProtocol", "frag_header:decode_complete_fragment", "frag_header:continue",
+       "frag_cont:decode_fragment_cont", "frag_cont:ErrProtocol", "frag_cont:decode_complete_fragment", "frag_cont:continue",
+       "unmarked:ErrProtocol",
+       "pass_through:decode_with_trailing", "pass_through:decode_with_trailing#2", "pass_through:ErrDecode",
+       "pass_through>tail:from_term", "pass_through>tail:Ok",
+       "dist_header:decode_with_atom_cache", "dist_header>tail:from_term", "dist_header>tail:Ok"]
+    ∧ (∀ row ∈ Edp.Gen.RECV_EXITS, row.2.1 = "err" →
+        row.2.2 = [] ∨ row.2.2 = preHead ∨ (row.2.2 = preHead ++ ["atom_cache"] ∧ (row.1 = "dist_header:decode_with_atom_cache" ∨ row.1 = "dist_header>tail:from_term")))
+    ∧ (∀ row ∈ Edp.Gen.RECV_EXITS, row.2.1 = "result" →
+        row.2.2 = preHead ++ ["fragment_assembler.start_fragment", "atom_cache"] ∨
+        row.2.2 = preHead ++ ["fragment_assembler.add_fragment", "atom_cache"])
+    ∧ (∀ row ∈ Edp.Gen.RECV_EXITS, row.2.1 = "continue" → row.2.2.all (· != "atom_cache") = true)
+    ∧ Edp.Gen.RECV_RH_EXITS.map (fun r => (r.1, r.2.2)) =
+      [("rh:read_exact", []), ("rh:continue", []), ("rh:ErrMessageTooLarge", []), ("rh:read_exact#2", []),
+       ("rh:ErrInvalidStateMessage", []), ("rh:ErrProtocol", []), ("rh:decode_with_trailing", []), ("rh:from_term", []),
+       ("rh:decode_with_trailing#2", []), ("rh:ErrDecode", []), ("rh:Ok", [])]
+    ∧ Edp.Gen.RECV_RAW_EXITS = [("raw:ErrInvalidState", "err", []), ("raw:read_message", "result", [])]
+    ∧ (Edp.Gen.RECV_VERSION_TAG, Edp.Gen.RECV_PASS_THROUGH, Edp.Gen.RECV_DIST_HEADER, Edp.Gen.RECV_DIST_FRAG_HEADER,
+        Edp.Gen.RECV_DIST_FRAG_CONT) = (131, 112, 68, 69, 70) := by decide
+
+/-- WHAT A FRAME OF EACH CLASS LEAVES BEHIND IS WHAT THE SOURCE'S STATEMENTS ON THAT PATH MAKE OF THE STATE. For every frame,
+state and clock reading: the exit the model's iteration takes (`exitSite`: which `?` / `return` / `continue` of the source) is
+a row of the regenerated table, and the state the model is left in equals the state before the frame with exactly the
+state-changing statements of that row run on it, in the source's order (`runMuts`: `cleanup_expired`, `start_fragment` /
+`add_fragment` on the decoded fragment header, the atom cache written by the decoder it is handed to). In particular an
+error exit whose row lists only the read and the clean-up leaves assembler and cache exactly as `cleanup_expired` leaves them. -/
+theorem C06_state_after_frame_is_the_sources (x : Ext) (tbl : Control.Table) (now : Nat) (s : St) (frame : Bytes) :
+    ∃ pre, preOf (exitSite x tbl now s frame) = some pre ∧ (recv x tbl now s frame).1 = runMuts x tbl now frame s pre ∧
+      (pre = preHead → (recv x tbl now s frame).1 = expire now s) := by
+  obtain ⟨pre, h1, h2⟩ := recv_by_table x tbl now s frame
+  exact ⟨pre, h1, h2, fun e => by rw [h2, e, runMuts_head]⟩
+
+/-- a header frame whose reference section is cut short leaves through `dist_header:decode_with_atom_cache` (the cache has
+been handed out); a stray continuation leaves through `frag_cont:continue` (the assembler has been asked, the cache not) -/
+example : exitSite Ext.none Gen.controlTable 0 St.init [131, 68, 3, 0x88, 0x08, 0, 1, 97, 1] = "dist_header:decode_with_atom_cache" ∧
+    preOf "dist_header:decode_with_atom_cache" = some (preHead ++ ["atom_cache"]) ∧
+    exitSite Ext.none Gen.controlTable 0 St.init (fragCont 7 3 [1, 2]) = "frag_cont:continue" ∧
+    preOf "frag_cont:continue" = some (preHead ++ ["fragment_assembler.add_fragment"]) := by decide
 
 end Edp.Props.C06
